@@ -428,6 +428,37 @@ theorem C03_idle_exceptions_exact (cfg : Cfg) (hwf : cfg.WF) (pol : Policy) (st0
   simp only [C03.TrulyIdle, hbuf, List.any_nil, Bool.not_false, Bool.and_true]
   cases h1 : r'.heap.any (fun t => C03.isAddEvent t.tick) <;> cases h2 : r'.mailbox.any C03.isAddEvent <;> simp
 
+/-! ### `UnhandledEvent(idle=True)`: why the empty-buffer clause is claimed for `WorkflowIdleEvent` only
+
+For the `UnhandledEvent(idle=True)` form `C03_idle_runner_sound` leaves "the rest of the batch the unhandled tick
+arrived in" in the buffer, and that rest can be pending work: W3 below.  A two-worker step hands `collect_events` an
+event of a type it does not accept; the collect re-run therefore runs with that event (C01's guarded clause); the re-run
+fails and is retried after 3 s — and so is another invocation of the step, due at the same instant.  The timer puts both
+retries into the buffer; the first is not accepted by its own step, so `UnhandledEvent(idle=True)` is published — with the
+other due retry still buffered, nothing in the heap, nothing in the mailbox.  A third way, distinct from the two known
+findings, in which an idle announcement is made while a retry waits; it replays on the real engine (reported; spec in
+`harness/corpus/c03_unhandled_idle_batch.json`). -/
+
+def C03.w3Cfg' : Cfg := { steps := [{ name := 0, accepted := [0], numWorkers := 2, hasRetry := true }] }
+def C03.plain0 (u : Nat) : Ev := { ty := 0, kind := .plain, uid := u }
+def C03.foreign (u : Nat) : Ev := { ty := 9, kind := .plain, uid := u }
+def C03.w3Acts' : List Act :=
+  [.drain,
+   .external (.addEvent { ev := C03.plain0 2 } none), .pull, .drain,
+   .workerDone 0 0 [.addCollected 1 (C03.foreign 7)], .drain,
+   .workerDone 0 1 [.addCollected 1 (C03.foreign 8)], .drain,
+   .workerDone 0 1 [.failed 7 0], .drain, .drain,
+   .external (.addEvent { ev := C03.plain0 3 } none), .pull, .drain,
+   .workerDone 0 0 [.failed 7 0], .drain, .drain,
+   .advance 3, .timer]
+
+/-- W3: `UnhandledEvent(idle=True)` announced with a due retry in the tick buffer (heap and mailbox empty, no task alive) -/
+theorem C03_refuted_unhandled_batch :
+    let r := C03.runFrom C03.w3Cfg' (fun _ _ _ _ => .retry 3) initState 0 (some C03.startEv) none C03.w3Acts'
+    let r' := r.step C03.w3Cfg' (fun _ _ _ _ => .retry 3) .drain
+    r'.stream = r.stream ++ [.unhandled 9 (some 0) true] ∧ r'.heap = [] ∧ r'.mailbox = [] ∧ r'.running = [] ∧
+      r'.buf.any C03.isAddEvent = true ∧ C03.TrulyIdle r' = false := by decide
+
 /-- **Truly idle is quiescent**: after a `WorkflowIdleEvent` announcement with an empty timer heap
 and an empty mailbox, whatever the loop tries on its own (drain, pull, timer, a worker finishing,
 time passing — everything but an external `send_event`) changes nothing but the clock: only new
